@@ -15,13 +15,13 @@ Cfgs == {
   \* precision 0; bid fee 0.25 of a total of 10 is an exact .5 tie; the contract's own base denomination is
   \* also listed as convertible (instantiation allows it): asks in it are plain all the same
   [m |-> InstMsg("ats", "base", <<"cv1", "base">>, <<"q1", "q2">>, <<"appr1">>, <<"exec1">>, NoFeeInfo,
-                 FeeInfo("bidfee1", D(2500)), <<>>, <<>>, 0, 1),
+                 FeeInfo("bidfee1", D(250000)), <<>>, <<>>, 0, 1),
    price |-> D(50000), fine |-> D(15000), size |-> 2],
   [m |-> InstMsg("ats", "base", <<"cv1">>, <<"q1", "q2">>, <<"appr1">>, <<"exec1">>, NoFeeInfo,
-                 FeeInfo("bidfee1", D(2500)), <<"kyc">>, <<"kyc", "acc">>, 1, 10),
+                 FeeInfo("bidfee1", D(250000)), <<"kyc">>, <<"kyc", "acc">>, 1, 10),
    price |-> D(15000), fine |-> D(12500), size |-> 20],
   [m |-> InstMsg("ats", "base", <<"cv1">>, <<"q1", "q2">>, <<"appr1">>, <<"exec1">>, NoFeeInfo,
-                 FeeInfo("bidfee1", D(1)), <<>>, <<"kyc">>, 2, 100),
+                 FeeInfo("bidfee1", D(100)), <<>>, <<"kyc">>, 2, 100),
    price |-> D(1200), fine |-> D(1250) , size |-> 100] }
 \* third configuration: rate 0.0001, price 0.12: total 12, fee rounds to 0; price 0.125 has 3 decimals
 
